@@ -21,7 +21,7 @@ Nodes == [n \in {"a", "o", "d/", "df/", "ds/"} |->
               [] n = "ds/" -> [kind |-> "dirstruct", path |-> "d", filt |-> <<>>]
               [] OTHER -> [kind |-> "file", path |-> n, filt |-> <<>>]]
 Sh(ins) == [tool |-> "shell", ins |-> ins, outs |-> <<"o">>, sigx |-> 1, aood |-> FALSE, ami |-> FALSE, amo |-> FALSE,
-            tag |-> "c", reads |-> <<>>, depsok |-> TRUE, failif |-> "", failpt |-> "before", expected |-> <<>>, roots |-> <<>>]
+            tag |-> "c", keep |-> FALSE, reads |-> <<>>, depsok |-> TRUE, failif |-> "", failpt |-> "before", expected |-> <<>>, roots |-> <<>>]
 D(ins) == [cmds |-> [c |-> Sh(ins)], nodes |-> Nodes, targets |-> [t |-> <<"o">>], paths |-> <<>>]
 AllDescs == {D(<<"d/">>), D(<<"df/">>), D(<<"ds/">>), D(<<"a", "d/">>)}
 TargetKeys == {TK("t")}
